@@ -7,17 +7,26 @@
      ServerReg / ServerUnreg - gates signal.register / signal.unregister on the
                      object's mailbox goroutine
      EmitCall      - the emitter calls Signal<X>/Update<Prop>
-     SendTo        - gate signal.update.send (between the snapshot and each Send)
+     SendTo / SendFail - gate signal.update.send (between the snapshot and each Send);
+                     whether the Send succeeds is decided by the state of the connection
+     InjectMsg     - the harness sends a non-Event message addressed like an event
+     RogueUnreg    - the harness calls unregisterEvent on one connection with the user id
+                     of a registration made on another
+     BreakWrite / ReaderNotices - the harness breaks the server -> client direction of
+                     its own stream / lets the server's reader see the end of it
    Everything else happens by itself in the implementation as soon as it can
    (dispatch of a received message, the forwarding goroutine, the snapshot right
    after the call, the return of the emit call, the channel being closed after
-   the cancel): these steps have priority here, in one fixed order, so a schedule
+   the cancel, the clean-up after a Send that failed with io.EOF, the closers of a
+   connection the server has seen end): these steps have priority here, in one fixed order, so a schedule
    of controllable steps has exactly one expansion.  At most one request is in the
    object's mailbox at a time (the harness waits for the mailbox goroutine to
    park), and a queue never overflows.
 
    "G" lines: [steps, got, bad, fin]  (fin = 1: every thread is done, nothing in flight)
-     steps = <<[a, th], ...>> every step, automatic ones included (the harness
+     steps = <<[a, th, o, sig, x], ...>> (th: thread or connection; o, sig: the target of an
+             emission / injection / foreign unregisterEvent, o = the kind of a break; x = the
+             connection whose registration a foreign unregisterEvent names) every step, automatic ones included (the harness
              uses them as synchronisation points: "forward" = the subscriber has
              read one more event, "close" = its channel got closed ...)
      got   = what each thread has received in its last subscription
@@ -33,64 +42,146 @@ CONSTANT Hunt   \* "" : export finished schedules (simulation)
 VARIABLES hist, bad
 gvars == <<vars, hist, bad>>
 
-Rec(a, th) == [a |-> a, th |-> th]
+Rec5(a, th, o, sig, x) == [a |-> a, th |-> th, o |-> o, sig |-> sig, x |-> x]
+Rec4(a, th, o, sig) == Rec5(a, th, o, sig, "")
+Rec(a, th) == Rec4(a, th, "", "")
+Log(r) == hist' = Append(hist, r)
 
+Replying == {o \in Objects : srep[o].c # ""}
+Forwarding == {t \in Threads : q[t] # <<>> /\ ~closed[t]}
 \* automatic steps, first enabled in this order
 AutoStep ==
-  CASE srep.c # ""                                    -> ServerReply /\ hist' = Append(hist, Rec("reply", ""))
-    [] em.pc = "called"                              -> EmitStart /\ hist' = Append(hist, Rec("snapshot", ""))
-    [] em.pc = "sending" /\ em.pending = <<>>         -> EmitEnd /\ hist' = Append(hist, Rec("emitret", ""))
+  CASE Replying # {}                                 ->
+         LET o == CHOOSE x \in Replying : TRUE IN ServerReply(o) /\ Log(Rec4("reply", "", o, ""))
+    [] em.pc = "called"                              -> EmitStart /\ Log(Rec("snapshot", ""))
+    [] em.pc = "cleanup"                             -> FailCleanup /\ Log(Rec("cleanup", em.failed.c))
+    [] em.pc = "sending" /\ em.pending = <<>>         -> EmitEnd /\ Log(Rec("emitret", ""))
+    [] clos # {}                                      ->
+         LET x == CHOOSE y \in clos : TRUE IN CloserRun(x) /\ Log(Rec4("closer", x.c, x.o, ""))
     [] \E c \in Conns : wire[c] # <<>>                ->
          LET c == CHOOSE x \in Conns : wire[x] # <<>>
-         IN Deliver(c) /\ hist' = Append(hist, Rec("deliver", c))
-    [] \E t \in Threads : q[t] # <<>> /\ ~closed[t]   ->
-         LET t == CHOOSE x \in Threads : q[x] # <<>> /\ ~closed[x]
-         IN Forward(t) /\ hist' = Append(hist, Rec("forward", t))
+         IN Deliver(c) /\ Log(Rec("deliver", c))
+    [] Forwarding # {}                                ->
+         LET t == CHOOSE x \in Forwarding : TRUE
+         IN Forward(t) /\ Log(Rec(IF Forwards(Head(q[t])) THEN "forward" ELSE "drop", t))
     [] \E t \in Threads : pc[t] = "closing"           ->
          LET t == CHOOSE x \in Threads : pc[x] = "closing"
-         IN CloseSub(t) /\ hist' = Append(hist, Rec("close", t))
+         IN CloseSub(t) /\ Log(Rec("close", t))
     [] \E t \in Threads : pc[t] = "done" /\ round[t] < Rounds[t] ->
          LET t == CHOOSE x \in Threads : pc[x] = "done" /\ round[x] < Rounds[x]
-         IN Again(t) /\ hist' = Append(hist, Rec("again", t))
+         IN Again(t) /\ Log(Rec("again", t))
     [] OTHER -> FALSE
-AutoEnabled == \/ srep.c # "" \/ em.pc = "called" \/ (em.pc = "sending" /\ em.pending = <<>>)
+AutoEnabled == \/ Replying # {} \/ em.pc \in {"called", "cleanup"} \/ (em.pc = "sending" /\ em.pending = <<>>)
+               \/ clos # {}
                \/ \E c \in Conns : wire[c] # <<>>
                \/ \E t \in Threads : (q[t] # <<>> /\ ~closed[t]) \/ pc[t] = "closing"
                                      \/ (pc[t] = "done" /\ round[t] < Rounds[t])
 
+\* at most one request is on its way to a mailbox
+NoRequest == \A o \in Objects : mbox[o] = <<>>
 Ctl(th) ==
-  \/ SubLocal(th) /\ hist' = Append(hist, Rec("sublocal", th))
-  \/ SubInc(th) /\ hist' = Append(hist, Rec("subinc", th))
-  \/ SubKey(th) /\ hist' = Append(hist, Rec("subkey", th))
-  \/ mbox = <<>> /\ SubRPC(th) /\ hist' = Append(hist, Rec("subrpc", th))
-  \/ Ack(th) /\ hist' = Append(hist, Rec("ack", th))
-  \/ CancelReq(th) /\ hist' = Append(hist, Rec("cancel", th))
-  \/ UnsubDec(th) /\ hist' = Append(hist, Rec("unsubdec", th))
-  \/ UnsubRead(th) /\ hist' = Append(hist, Rec("unsubread", th))
-  \/ UnsubClear(th) /\ hist' = Append(hist, Rec("unsubclear", th))
-  \/ mbox = <<>> /\ UnsubRPC(th) /\ hist' = Append(hist, Rec("unsubrpc", th))
-  \/ Abort(th) /\ hist' = Append(hist, Rec("abort", th))
+  \/ SubLocal(th) /\ Log(Rec("sublocal", th))
+  \/ SubInc(th) /\ Log(Rec("subinc", th))
+  \/ SubKey(th) /\ Log(Rec("subkey", th))
+  \/ NoRequest /\ SubRPC(th) /\ Log(Rec("subrpc", th))
+  \/ Ack(th) /\ Log(Rec("ack", th))
+  \/ CancelReq(th) /\ Log(Rec("cancel", th))
+  \/ UnsubDec(th) /\ Log(Rec("unsubdec", th))
+  \/ UnsubRead(th) /\ Log(Rec("unsubread", th))
+  \/ UnsubClear(th) /\ Log(Rec("unsubclear", th))
+  \/ NoRequest /\ UnsubRPC(th) /\ Log(Rec("unsubrpc", th))
+  \/ Abort(th) /\ Log(Rec("abort", th))
 
 Controllable ==
   \/ \E th \in Threads : Ctl(th)
-  \/ ServerReg /\ hist' = Append(hist, Rec("serverreg", ""))
-  \/ ServerUnreg /\ hist' = Append(hist, Rec("serverunreg", ""))
-  \/ EmitCall /\ hist' = Append(hist, Rec("emit", emitted'[Len(emitted')]))
-  \/ SendTo /\ hist' = Append(hist, Rec("send", ""))
+  \/ \E o \in Objects : ServerReg(o) /\ Log(Rec4("serverreg", "", o, ""))
+  \/ \E o \in Objects : ServerUnreg(o) /\ Log(Rec4("serverunreg", "", o, ""))
+  \/ EmitCall /\ Log(Rec4("emit", "", emitted'[Len(emitted')].o, emitted'[Len(emitted')].sig))
+  \/ (SendTo \/ SendFail) /\ Log(Rec("send", ""))
+  \/ \E i \in Inject : InjectMsg(i) /\ Log(Rec4("inject", i.c, i.o, i.sig))
+  \/ \E c \in Rogue : \E o \in Objects : \E i \in 1..Len(regs[o]) :
+        NoRequest /\ RogueUnreg(c, o, i) /\ Log(Rec5("rogue", c, o, regs[o][i].sig, regs[o][i].c))
+  \/ \E c \in Failing : \E k \in {"eof", "err"} : BreakWrite(c, k) /\ Log(Rec4("break", c, k, ""))
+  \/ \E c \in Failing : ReaderNotices(c) /\ Log(Rec("notice", c))
 
-Finished == /\ \A t \in Threads : pc[t] \in {"done", "failed"} /\ (pc[t] = "done" => round[t] = Rounds[t])
-            /\ called = Len(EmitSeq) /\ em.pc = "idle" /\ mbox = <<>> /\ srep.c = ""
+Finished == /\ \A t \in Threads : pc[t] \in {"done", "failed", "dead"} /\ (pc[t] = "done" => round[t] = Rounds[t])
+            /\ called = Len(EmitSeq) /\ em.pc = "idle" /\ NoRequest /\ Replying = {} /\ clos = {}
             /\ \A c \in Conns : wire[c] = <<>>
+            \* a connection that broke is seen to be down in the end (the harness closes its stream)
+            /\ \A c \in Conns : wst[c] \in {"up", "down"}
+
+\* ---- witnesses: situations (not violations) a hunt can aim at, so that every run of the
+\* check forces them on the real code.  They are facts about the step being taken.
+\* a message of type ty is being dispatched on a connection where an acknowledged subscriber
+\* listens whose subscription differs from the message's address as told by P(t, m)
+Dispatching(ty, P(_, _)) ==
+  \E c \in Conns : /\ wire[c] # <<>> /\ wire'[c] = Tail(wire[c]) /\ Head(wire[c]).t = ty
+                   /\ \E t \in Threads : /\ ConnOf[t] = c /\ lh[t] /\ pc[t] = "acked" /\ pc'[t] = "acked"
+                                         /\ P(t, Head(wire[c]))
+\* a Send of UpdateSignal fails (connection in state k) while entries for healthy connections
+\* are still pending behind it
+FailingSend(k) == /\ em.pc = "sending" /\ em.pending # <<>> /\ em'.pending # em.pending
+                  /\ wst[Head(em.pending).c] = k
+                  /\ \E i \in 2..Len(em.pending) : wst[em.pending[i].c] = "up"
+\* UpdateSignal takes its snapshot while a listed subscriber's connection is broken already
+\* (and another one's is healthy): the Send to it is bound to fail
+\* the mailbox goroutine processes an unregisterEvent that names the registration of another
+\* connection whose subscriber is acknowledged
+RogueProcessed == \E o \in Objects :
+                    /\ mbox[o] # <<>> /\ Head(mbox[o]).th = NoThread /\ mbox'[o] = Tail(mbox[o])
+                    /\ \E t \in Threads : ObjOf[t] = o /\ pc[t] = "acked" /\ h[t] = Head(mbox[o]).u
+SnapshotOfBroken == /\ em.pc = "called" /\ em'.pc = "sending"
+                    /\ \E i, j \in 1..Len(em'.pending) : wst[em'.pending[i].c] \in {"eof", "err"} /\ i < j
+                                                          /\ wst[em'.pending[j].c] = "up"
+Witnessed ==
+  {w \in {"W_SiblingObjectEvent", "W_OtherServiceEvent", "W_OtherActionEvent", "W_NonEvent",
+          "W_FailedSendNotLast_eof", "W_FailedSendNotLast_err", "W_FailedSendNotLast_down", "W_SnapshotOfBroken",
+          "W_RogueUnregister"} :
+     CASE w = "W_SiblingObjectEvent" -> Dispatching("ev", LAMBDA t, m : SvcOK(t, m) /\ ~OidOK(t, m) /\ ActOK(t, m))
+       [] w = "W_OtherServiceEvent" -> Dispatching("ev", LAMBDA t, m : ~SvcOK(t, m) /\ OidOK(t, m) /\ ActOK(t, m))
+       [] w = "W_OtherActionEvent" -> Dispatching("ev", LAMBDA t, m : SvcOK(t, m) /\ OidOK(t, m) /\ ~ActOK(t, m))
+       [] w = "W_NonEvent" -> Dispatching("inj", LAMBDA t, m : SvcOK(t, m) /\ OidOK(t, m) /\ ActOK(t, m))
+       [] w = "W_FailedSendNotLast_eof" -> FailingSend("eof")
+       [] w = "W_FailedSendNotLast_err" -> FailingSend("err")
+       [] w = "W_FailedSendNotLast_down" -> FailingSend("down")
+       [] w = "W_SnapshotOfBroken" -> SnapshotOfBroken
+       [] w = "W_RogueUnregister" -> RogueProcessed}
+\* Hunt = "W_foreign" / "W_fail": one breadth-first run aims at several witnesses; TLC registers
+\* (-workers 1) count what has been exported, the run stops when every witness has a schedule
+HuntSet == CASE Hunt = "W_foreign" -> {"W_SiblingObjectEvent", "W_OtherServiceEvent", "W_OtherActionEvent", "W_NonEvent",
+                                       "W_RogueUnregister"}
+             [] Hunt = "W_fail" -> {"W_FailedSendNotLast_eof", "W_FailedSendNotLast_err", "W_FailedSendNotLast_down",
+                                    "W_SnapshotOfBroken"}
+             [] OTHER -> {Hunt}
+Multi == Hunt \in {"W_foreign", "W_fail"}
+HReg(w) == CASE w = "W_SiblingObjectEvent" -> 21 [] w = "W_OtherServiceEvent" -> 22 [] w = "W_OtherActionEvent" -> 23
+             [] w = "W_NonEvent" -> 24 [] w = "W_FailedSendNotLast_eof" -> 25 [] w = "W_FailedSendNotLast_err" -> 26
+             [] w = "W_FailedSendNotLast_down" -> 27 [] w = "W_SnapshotOfBroken" -> 28 [] OTHER -> 29
+ASSUME \A i \in 21..29 : TLCSet(i, 0)
+PerWitness == 2     \* schedules exported per witness
+Export(fin) == PrintT(<<"G", ToJson([steps |-> hist', got |-> got', bad |-> bad', fin |-> fin])>>)
 
 GInit == Init /\ hist = <<>> /\ bad = {}
 GNext == /\ IF AutoEnabled THEN AutoStep ELSE Controllable
-         /\ bad' = bad \cup Violated'
-         /\ (Hunt = "" /\ Finished')
-               => PrintT(<<"G", ToJson([steps |-> hist', got |-> got', bad |-> bad', fin |-> 1])>>)
-         /\ (Hunt # "" /\ Hunt \in bad' /\ Hunt \notin bad)
-               => PrintT(<<"G", ToJson([steps |-> hist', got |-> got', bad |-> bad', fin |-> 0])>>)
+         /\ bad' = bad \cup Violated' \cup Witnessed
+         /\ (Hunt = "" /\ Finished') => Export(1)
+         /\ (Hunt # "" /\ ~Multi /\ Hunt \in bad' /\ Hunt \notin bad) => Export(0)
+         /\ Multi => \A w \in HuntSet :
+                       (w \in bad' /\ w \notin bad /\ TLCGet(HReg(w)) < PerWitness)
+                          => Export(0) /\ TLCSet(HReg(w), TLCGet(HReg(w)) + 1)
 GSpec == GInit /\ [][GNext]_gvars
-HuntOpen == Hunt = "" \/ Hunt \notin bad
+HuntOpen == CASE Hunt = "" -> TRUE
+              [] Multi -> \E w \in HuntSet : TLCGet(HReg(w)) = 0
+              [] OTHER -> Hunt \notin bad
+\* hunts for witnesses need no cancelled subscription: prune
+NoCancel == \A t \in Threads : ~cancelled[t] /\ pc[t] \notin {"dec", "done"}
+\* ... and the witnesses about routing (not about races) are looked for among the schedules
+\* in which the threads subscribe one after the other and the emissions come last
+Order == <<"t1", "t2", "t3", "t4", "t5", "t6", "t7", "t8", "t9", "t10">>
+Pos(t) == CHOOSE i \in 1..Len(Order) : Order[i] = t
+OneByOne == /\ NoCancel
+            /\ \A t, u \in Threads : (Pos(t) < Pos(u) /\ pc[u] # "idle") => pc[t] = "acked"
+            /\ (called > 0 \/ injected # {} \/ rogued # {}) => \A t \in Threads : pc[t] = "acked"
 \* the schedule so far is history, not state
 GView == <<vars, bad>>
 =============================================================================
